@@ -2,6 +2,7 @@ import RJson.Model.Ragel
 import RJson.Model.Api
 import RJson.Model.FP
 import RJson.Model.ValueReader
+import RJson.Model.ReaderState
 import RJson.Spec.Values
 import RJson.Gen.ReadNull
 import RJson.Gen.ReadBool
@@ -180,6 +181,21 @@ def apiOp (op : String) (args : List String) : Option String :=
   | "ReadValue", [d] => do let d ← hexToBytes d; pure (fmtR (readValue d) JVal.render)
   | "ReadObject", [d] => do let d ← hexToBytes d; pure (fmtR (readObject d) JVal.render)
   | "ReadArray", [d] => do let d ← hexToBytes d; pure (fmtR (readArray d) JVal.render)
+  | "VRHistory", ops => do
+    -- a history of calls on one reader: each op is `<kind>:<hex>` (0 ReadValue, 1 ReadObject, 2 ReadArray); for each call
+    -- the outcome and the reader's own fields afterwards
+    let rec go : List String → VRState → Nat → List String → Option (List String)
+      | [], _, _, acc => some acc.reverse
+      | o :: rest, h, tick, acc =>
+        match o.splitOn ":" with
+        | [k, hx] => do
+          let d ← hexToBytes hx
+          let op ← (if k == "0" then some VOp.value else if k == "1" then some VOp.object else if k == "2" then some VOp.array else none)
+          let (r, h', tick') := sCall (fun _ => {}) op h tick d
+          go rest h' tick' (s!"{fmtR r JVal.render} d={h'.depth} nm={h'.newMapSize} lm={h'.lastMapSize} mm={h'.maxMapSize} ns={h'.newSliceSize} ls={h'.lastSliceSize}" :: acc)
+        | _ => none
+    let outs ← go ops {} 0 []
+    pure (" | ".intercalate outs)
   | "FloatPath", [d] => do let d ← hexToBytes d; pure (FP.parse d).path.name
   | "getu4", [d] => do
     let d ← hexToBytes d
